@@ -1095,6 +1095,15 @@ func (nr *netRun) checkC01(x *xfer) {
 		return
 	}
 	if x.preseed == 0 {
+		// C07's accounting as seen on a real transfer: every block position counted once, unique bytes only - on each
+		// side separately (also across restarts and re-sent blocks). (Index totals are the highest position *reported*;
+		// trailing positions whose blocks never went on the wire are not reported - C16 - so they are bounded, not fixed.)
+		if snd.Queued != x.payload || snd.Sent > snd.Queued || int(snd.QIdx) > len(x.walk) {
+			r.Failf("C07", "net-sender-totals", dir, "%s #%d Completed: sender Queued=%d Sent=%d queued index=%d, unique payload=%d in %d traversal positions", dir, x.idx, snd.Queued, snd.Sent, snd.QIdx, x.payload, len(x.walk))
+		}
+		if rcv.Received != x.payload || int(rcv.RIdx) > len(x.walk) {
+			r.Failf("C07", "net-receiver-totals", dir, "%s #%d Completed: receiver Received=%d received index=%d, unique payload=%d in %d traversal positions", dir, x.idx, rcv.Received, rcv.RIdx, x.payload, len(x.walk))
+		}
 		if rcv.Received != snd.Queued || snd.Queued != x.payload {
 			r.Failf("C01", "totals-disagree", dir, "%s #%d Completed: receiver Received=%d sender Queued=%d unique payload=%d (blocks=%d)", dir, x.idx, rcv.Received, snd.Queued, x.payload, len(x.walk))
 		}
@@ -1235,6 +1244,10 @@ func init() {
 		}
 		return c
 	}
+	// the per-event stream oracles of C03 (event classes) and C07 (totals never decrease; conservation through C01's
+	// totals) also run on every real transfer
+	Register("C03", Stratum{Name: "net-mixed", Weight: 2, Fn: netTransfer(mixCfg)})
+	Register("C07", Stratum{Name: "net-pauses", Weight: 1, Fn: netTransfer(pausesCfg)}, Stratum{Name: "net-mixed", Weight: 1, Fn: netTransfer(mixCfg)})
 	Register("C08", Stratum{Name: "net-limits-and-revalidation", Weight: 3, Fn: netTransfer(limitsCfg)})
 	Register("C11", Stratum{Name: "net-pauses", Weight: 4, Fn: netTransfer(pausesCfg)}, Stratum{Name: "net-mixed", Weight: 1, Fn: netTransfer(mixCfg)})
 	Register("C09", Stratum{Name: "net-closes", Weight: 4, Fn: netTransfer(closesCfg)}, Stratum{Name: "net-mixed", Weight: 2, Fn: netTransfer(mixCfg)})
